@@ -449,4 +449,12 @@ static void gen(Emitter &em, const Options &opt) {
     if (c10) gen_c10(g);
 }
 
-int main(int argc, char **argv) { return run_main(argc, argv, gen, exec_case); }
+int main(int argc, char **argv) {
+    // a case that makes no progress for this long is a hang; the runner's default (4 s) is too tight when
+    // several checks share the machine, and a format call that really loops will still be caught
+    std::vector<char *> av; av.push_back(argv[0]);
+    static char t0[] = "--timeout", t1[] = "25";
+    av.push_back(t0); av.push_back(t1);
+    for (int i = 1; i < argc; ++i) av.push_back(argv[i]);
+    return run_main((int)av.size(), av.data(), gen, exec_case);
+}
